@@ -164,7 +164,7 @@ pub fn wide_by_name(name: &str) -> Option<&'static WideOpt> {
 }
 
 /// Source kinds that involve no builtin feature (a builtin feature may set any option).
-pub const CUSTOM_KINDS: &[&str] = &["cli", "main", "envparam", "custom-cli-features", "custom-env-features", "custom-plusenv-features", "custom-main-features", "custom-envparam-features", "custom-child", "custom-grandchild"];
+pub const CUSTOM_KINDS: &[&str] = &["cli", "main", "envparam", "custom-cli-features", "custom-env-features", "custom-plusenv-features", "custom-main-features", "custom-envparam-features", "custom-child", "custom-grandchild", "custom-cycle", "custom-self-loop"];
 
 /// Every single custom source kind and every unordered pair of them, for every wide option.
 pub fn lattice_wide(seed: u64) -> Vec<Placement> {
@@ -610,6 +610,8 @@ pub const SOURCE_KINDS: &[&str] = &[
     "custom-envparam-features",
     "custom-child",
     "custom-grandchild",
+    "custom-cycle",
+    "custom-self-loop",
     "builtin-cli-flag",
     "builtin-main-flag",
     "builtin-envparam-flag",
@@ -777,6 +779,21 @@ impl<'a> Builder<'a> {
                     return false;
                 }
                 self.p.cli_flags.push(b);
+            }
+            "custom-cycle" | "custom-self-loop" => {
+                // feature graphs with cycles: fa enables fb enables fa; fc enables itself
+                let which = (*rng.pick(&["cli", "env", "plusenv", "main"])).to_string();
+                let a = self.new_custom();
+                let v = self.value(rng);
+                if kind == "custom-self-loop" {
+                    self.p.custom.insert(a.clone(), Section { value: Some(v), features: Some(vec![a.clone()]), flags: vec![] });
+                } else {
+                    let b = self.new_custom();
+                    let av = if rng.chance(1, 3) { Some(self.value(rng)) } else { None };
+                    self.p.custom.insert(a.clone(), Section { value: av, features: Some(vec![b.clone()]), flags: vec![] });
+                    self.p.custom.insert(b, Section { value: Some(v), features: Some(vec![a.clone()]), flags: vec![] });
+                }
+                self.insert_in_list(rng, &which, a);
             }
             "builtin-envparam-flag" => {
                 let b = self.some_builtin(rng);
